@@ -31,6 +31,12 @@ def cells(tier):
         out.append(cell(f"s{size} A1|cgroupA,B1 named like A's generated name,C1,M1", sc, MON))
         sc = scen(pool(size), [[A("A", 3)], [A("B", 2)], [cgroup("A"), A("C", 2)]], outcomes=["ret"])
         out.append(cell(f"s{size} A3|B2|cgroupA,C2 (cancelled waiting spawner)", sc, MON))
+    for size in [1, 2]:
+        # overlapping start() requests whose spawners wait for room in turn
+        sc = scen(pool(size, "SimpleTaskPool"), [[S("S", 3)], [S("T", 1)]], outcomes=["ret"])
+        out.append(cell(f"simple s{size} S3|T1 (overlapping spawners)", sc, MON))
+        sc = scen(pool(size, "SimpleTaskPool"), [[S("S", 3), S("T", 2)], [["stop", 1]]], outcomes=["ret"])
+        out.append(cell(f"simple s{size} S3,T2|stop1", sc, MON))
     if not q:
         for size in [1, 2]:
             sc = scen(pool(size), [[A("A", 2)], [A("B", 2)], [A("C", 1)], [cgroup("B"), A("D", 2)], [cancel(rid("A", 0))]], outcomes=["ret", "exc"])
